@@ -111,6 +111,20 @@ def number_ladder(v, region, names, out_path, wrap):
     return ladder
 
 
+
+def _number_of(v, t, dv):
+    """t is the lossless integer conversion of the payload of variant dv: `Number::from(x)` or `x.into()` (the same impl)"""
+    if t[0] != "call" or not t[3] or not payload_of(t[3][0], dv):
+        return False
+    c = v.callee(t[1])
+    nm = call_name(v, t)
+    if nm == "std::convert::From::from":
+        return "serde_json::Number" in (c.full or "")
+    if nm == "std::convert::Into::into":
+        return "Into<serde_json::Number>" in (c.full or "").replace("std::convert::", "")
+    return False
+
+
 def run(ctx):
     res = PropResult("C13")
     res.level = "other"
@@ -230,9 +244,7 @@ def run(ctx):
                 fs.append(fnd("C13.TABLE", v, "From<Value> maps %s to %s" % (dv, fmt(rs[0][1]) if rs else "nothing")))
         for dv in ("Integer", "NegativeInteger"):
             rs = results_in(v, arms.get(dv, set()))
-            ok = len(rs) == 1 and is_agg(rs[0][1], "serde_json::Value", "Number") and rs[0][1][2] and rs[0][1][2][0][0] == "call" \
-                and call_name(v, rs[0][1][2][0]) == "std::convert::From::from" and payload_of(rs[0][1][2][0][3][0], dv) \
-                and "serde_json::Number" in (v.callee(rs[0][1][2][0][1]).full)
+            ok = len(rs) == 1 and is_agg(rs[0][1], "serde_json::Value", "Number") and rs[0][1][2] and _number_of(v, rs[0][1][2][0], dv)
             if not ok:
                 fs.append(fnd("C13.TABLE", v, "From<Value> does not map %s to Number::from(the same integer)" % dv))
         rs = results_in(v, arms.get("Float", set()))
@@ -334,8 +346,7 @@ def run(ctx):
                 fs.append(fnd("C13.TABLE", v, "Deserr for serde_json::Value maps %s to %s" % (dv, [(x[1]) for x in bl])))
         for dv in ("Integer", "NegativeInteger"):
             bl = built_in(arms.get(dv, set()))
-            ok = len(bl) == 1 and bl[0][1] == "Number" and bl[0][2] and bl[0][2][0][0] == "call" and call_name(v, bl[0][2][0]) == "std::convert::From::from" \
-                and payload_of(bl[0][2][0][3][0], dv) and "serde_json::Number" in v.callee(bl[0][2][0][1]).full
+            ok = len(bl) == 1 and bl[0][1] == "Number" and bl[0][2] and _number_of(v, bl[0][2][0], dv)
             if not ok:
                 fs.append(fnd("C13.TABLE", v, "Deserr for serde_json::Value does not map %s to Number::from(the same integer)" % dv))
         bl = built_in(arms.get("Float", set()))
